@@ -4,7 +4,7 @@ import glob, json, os, re
 rows = []
 for m in sorted(glob.glob('/verif/seeded/*/meta.json')):
     d = json.load(open(m))
-    rows.append('| %s | %s | %s | %s | %s |' % (d['seed'], d['property'], d['needs_to_manifest'].replace('|', '/'), ', '.join(d['reporting_rules']) or '**missed**',
+    rows.append('| %s | %s | %s | %s | %s |' % (d['seed'], d['property'], d['needs_to_manifest'].replace('|', '/'), ', '.join(d['reporting_rules']) or ('**not decided** (exit 2 in %s)' % ', '.join(d.get('analysis_error_in_checks', [])) if d.get('analysis_error_in_checks') else '**missed**'),
                                                 'yes' if d.get('detected_before_strengthening') else 'no → rule added/strengthened'))
 table = ('<!-- seeds:begin -->\n| seed | breaks | needs, in order to manifest | reported by | caught by the rules as first written |\n| --- | --- | --- | --- | --- |\n'
          + '\n'.join(rows) + '\n<!-- seeds:end -->')
